@@ -22,6 +22,7 @@ point (mc.sched.Chooser): choice 0 is the normal answer, choice k applies
 `alternatives[k-1]`, the deviations of DESIGN C13:
 
   ('status', s)       status byte s instead of 00 (commands that have one)
+  ('statusonly', s)   commands without flag bits: status octet 40/80/C0 alone
   ('nostatus',)       syntactically valid response without any payload
   ('errframe',)       PN53x application error frame / RC-S380 error frame
   ('comm', v)         RC-S380 32-bit communication status v (In/TgCommRF)
@@ -186,7 +187,8 @@ class Plan(object):
 
 
 FULL, REDUCED = 'full', 'reduced'
-REDUCED_STATUS = (0x01, 0x02, 0x0A, 0x13, 0x29, 0x31, 0x41, 0x7F, 0xFF)
+REDUCED_STATUS = (0x01, 0x02, 0x0A, 0x13, 0x29, 0x31, 0x40, 0x41, 0x7F, 0x80,
+                  0xC0, 0xFF)
 
 
 class ChipBase(object):
@@ -583,6 +585,10 @@ class PN53xChip(ChipBase):
                 alts += [('status', s) for s in range(1, 256)]
             else:
                 alts += [('status', s) for s in REDUCED_STATUS]
+            if code not in PN53X_RF:
+                # no flag bits are defined for these commands: a status
+                # octet with only bits 7:6 set, nothing behind it
+                alts += [('statusonly', s) for s in (0x40, 0x80, 0xC0)]
             alts.append(('nostatus',))
         alts.append(('errframe',))
         alts += _host_faults(a)
@@ -619,6 +625,8 @@ class PN53xChip(ChipBase):
             s = dev[1]
             data = bytes([s]) + (bytes(rsp[1:]) if s & 0x3F == 0 else b'')
             return Plan([ACK, hf.pn53x_build(body[:2] + data)])
+        if k == 'statusonly':
+            return Plan([ACK, hf.pn53x_build(body[:2] + bytes([dev[1]]))])
         if k == 'nostatus':
             return Plan([ACK, hf.pn53x_build(body[:2])])
         frame = hf.pn53x_build(body)
@@ -699,6 +707,8 @@ class ACR122Chip(ChipBase):
                 alts += [('status', s) for s in range(1, 256)]
             else:
                 alts += [('status', s) for s in REDUCED_STATUS]
+            if code not in PN53X_RF:
+                alts += [('statusonly', s) for s in (0x40, 0x80, 0xC0)]
             alts.append(('nostatus',))
         alts += _host_faults(a, ack=False)
         alts += [('wrongcode',), ('sw', 0x6300)]
@@ -722,6 +732,8 @@ class ACR122Chip(ChipBase):
             s = dev[1]
             data = bytes([s]) + (bytes(rsp[1:]) if s & 0x3F == 0 else b'')
             return Plan([self._ccid(body[:2] + data + ok)])
+        if k == 'statusonly':
+            return Plan([self._ccid(body[:2] + bytes([dev[1]]) + ok)])
         if k == 'nostatus':
             return Plan([self._ccid(body[:2] + ok)])
         if k == 'wrongcode':
